@@ -148,10 +148,10 @@ EXPORT errno_t _memccpy_s_chk(void *restrict dest, rsize_t dmax,
     }
 
     /* the entire src was not copied, so zero the whole buffer */
-    handle_error((char *)dest, orig_dmax,
-                 "memccpy_s: not enough "
-                 "space for src",
-                 ESNOSPC);
+    handle_mem_error(dest, orig_dmax,
+                     "memccpy_s: not enough "
+                     "space for src",
+                     ESNOSPC);
     return RCNEGATE(ESNOSPC);
 }
 #ifdef __KERNEL__
